@@ -1,5 +1,6 @@
 import Lemmas.U128Div
 import Lemmas.I128Basic
+import Lemmas.I128Div
 /-! # C01 — 128-bit integer arithmetic, ordering and bit operations are ℤ mod 2^128
 
 Property theorems only.  The executable models are `Model/U128.lean` (`num.Uint128`) and `Model/I128.lean` (`num.Int128`),
@@ -291,6 +292,48 @@ theorem idiv_zero_panics (a : I128) :
   · simp only [I128.mod, h2]
   · simp only [I128.divW, hn, Bool.false_eq_true, if_false, hdw]
   · simp only [I128.modW, h5]
+
+/-- the full signed statement: quotient truncated toward zero and reduced mod 2^128 (it wraps only for
+    `MinInt128 / -1`), remainder with the sign of the dividend -/
+def idivMod_spec_Statement : Prop := ∀ (a n : I128), n.toInt ≠ 0 →
+  ∃ q r, a.divMod n = .ok (q, r) ∧ q.toInt = I128.wrap128 (a.toInt.tdiv n.toInt) ∧ r.toInt = a.toInt.tmod n.toInt
+
+/-- `Int128.DivMod` from the unsigned specification (magnitudes, sign fix-up and the `MinInt128` wrap are proved; the
+    hypotheses are the three kernel contracts of the unsigned division) -/
+theorem idivMod_spec_partial (h64 : U128.Divlu64Spec) (h128 : U128.Div128Spec) (hbin : U128.DivBinSpec) :
+    idivMod_spec_Statement :=
+  fun a n h => I128.divMod_correct (fun u m hm => U128.divMod_correct h64 h128 hbin u m hm) a n h
+
+/-- quotient·divisor + remainder reproduces the dividend (mod 2^128; exactly, unless the quotient wrapped) -/
+theorem idiv_mul_add_mod_partial (h64 : U128.Divlu64Spec) (h128 : U128.Div128Spec) (hbin : U128.DivBinSpec)
+    (a n : I128) (h : n.toInt ≠ 0) :
+    ∃ q r, a.divMod n = .ok (q, r) ∧ I128.wrap128 (q.toInt * n.toInt + r.toInt) = a.toInt := by
+  obtain ⟨q, r, e, hq, hr⟩ := idivMod_spec_partial h64 h128 hbin a n h
+  refine ⟨q, r, e, ?_⟩
+  have hra := I128.toInt_range a
+  have key := Int.tdiv_add_tmod a.toInt n.toInt
+  rw [hq, hr]
+  generalize a.toInt.tdiv n.toInt = d at *
+  generalize a.toInt.tmod n.toInt = m at *
+  have e2 : ∃ k : Int, I128.wrap128 d = d + k * 2^128 := by
+    refine ⟨-((d + 2^127) / 2^128), ?_⟩
+    unfold I128.wrap128; omega
+  obtain ⟨k, hk⟩ := e2
+  rw [hk]
+  have : (d + k * 2 ^ 128) * n.toInt + m = a.toInt + (k * n.toInt) * 2^128 := by
+    rw [← key, Int.add_mul, Int.mul_comm n.toInt d]
+    rw [Int.mul_assoc, Int.mul_comm (2^128) n.toInt, ← Int.mul_assoc]
+    omega
+  rw [this]
+  generalize k * n.toInt = j
+  unfold I128.wrap128; omega
+
+/-- `Int128.Div` / `Int128.Mod` are the components of `Int128.DivMod`; `DivMod64` is `DivMod` of the sign-extended
+    operand by definition -/
+theorem idiv_eq_fst_divMod (a n : I128) :
+    a.div n = (a.divMod n).map Prod.fst ∧ a.mod n = (a.divMod n).map Prod.snd ∧
+    ∀ w : W, a.divModW w = a.divMod ⟨I128.ext64 w, w⟩ :=
+  ⟨I128.div_eq_divMod a n, I128.mod_eq_divMod a n, fun _ => rfl⟩
 
 /-! non-vacuity: the hypotheses of `divMod_spec_fast` are met by concrete operands (2^64 / 2^64: the `u = n` path),
     and a concrete evaluation of the model: 7 / 2 = 3 rem 1 -/
